@@ -190,7 +190,8 @@ func (st *SymbolTable) Resolve(name string) (symbol *Symbol, ok bool) {
 // DefineLocal adds a new symbol with ScopeLocal in the current scope.
 func (st *SymbolTable) DefineLocal(name string) (*Symbol, bool) {
 	symbol, ok := st.store[name]
-	if ok {
+	// a builtin cached by Resolve is not a definition of this scope.
+	if ok && symbol.Scope != ScopeBuiltin {
 		return symbol, true
 	}
 
@@ -213,7 +214,7 @@ func (st *SymbolTable) DefineLocal(name string) (*Symbol, bool) {
 
 func (st *SymbolTable) defineConstLit(name string) (*Symbol, bool) {
 	symbol, ok := st.store[name]
-	if ok {
+	if ok && symbol.Scope != ScopeBuiltin {
 		return symbol, true
 	}
 	st.hasConstLit = true
